@@ -2,6 +2,10 @@ package sim
 
 import (
 	"fmt"
+	"os"
+
+	"cosmossdk.io/log"
+	"github.com/rs/zerolog"
 
 	"github.com/cometbft/cometbft/crypto/ed25519"
 	tmprotocrypto "github.com/cometbft/cometbft/proto/tendermint/crypto"
@@ -101,4 +105,12 @@ func (ks *KeyStore) NameByAddr(addrHexUpper string) string {
 		return k.Name
 	}
 	return ""
+}
+
+// AppLogger returns the logger handed to the applications: silent unless VERIF_APPLOG is set.
+func AppLogger() log.Logger {
+	if os.Getenv("VERIF_APPLOG") != "" {
+		return log.NewLogger(os.Stdout, log.LevelOption(zerolog.InfoLevel))
+	}
+	return log.NewNopLogger()
 }
